@@ -179,4 +179,15 @@ theorem exPGame_cut (skip : Bool) (n : Nat) :
       .ok (if skip then { exPGame with frames := none } else exPGame) :=
   _root_.Peppi.exPGame_cut skip n
 
+/- from `Peppi.SlppCut` -/
+theorem slppReadL_cut_json (C : CodecT KVs) (T : TextOracle) (g : PGame KVs) (startBytes : Bytes) (endBytes : Option Bytes)
+    (hstart : gameStart T startBytes = .ok g.start)
+    (hend : endBytes.map gameEnd = g.fend.map Res.ok)
+    (hgecko : ∀ c, g.gecko = some c → c.2 < 2 ^ 32)
+    (hs : SizesOK C.withJson.toCodec g startBytes endBytes) (skip : Bool) (n : Nat) :
+    (∃ m, slppReadL C.withJson.toCodec T skip ((slppWrite C.withJson.toCodec g startBytes endBytes).take n) = .err m) ∨
+    slppReadL C.withJson.toCodec T skip ((slppWrite C.withJson.toCodec g startBytes endBytes).take n) =
+      .ok (if skip then { g with frames := none } else g) :=
+  _root_.Peppi.slppReadL_cut_json C T g startBytes endBytes hstart hend hgecko hs skip n
+
 end Peppi.Props.C07
